@@ -5,7 +5,7 @@ from harness import ir
 
 
 def single(cfg, name, args, mode="normal", inplace=False, alias=False):
-    """args: list of (type, kind, value); mode: normal | ignore | guard0 | guard1 | guard10 | guard01"""
+    """args: list of (type, kind, value); mode: normal | ignore | guard<levels>, one of 0, 1, p per nesting level, e.g. guard0, guard10, guard1p"""
     stmts = []
     for t, k, v in args:
         if t in "IBF":
@@ -32,7 +32,8 @@ def single(cfg, name, args, mode="normal", inplace=False, alias=False):
         # guards are created first so that operand indices stay 0..n-1 ... they are appended instead
         gidx = []
         for ch in bits:
-            stmts.append(["in", "priv", "B", int(ch)])
+            # 0 / 1: secret condition with that value; p: a PUBLIC condition (plain 1), as in _if(1) or a loop with an int bound
+            stmts.append(["const", 1] if ch == "p" else ["in", "priv", "B", int(ch)])
             gidx.append(len(stmts) - 1)
         inner = body
         for g in reversed(gidx):
